@@ -39,8 +39,8 @@ def work(name):
 
 def main():
     names = sorted(n for n in os.listdir(os.path.join(VERIF, 'seeded')) if os.path.exists(os.path.join(VERIF, 'seeded', n, 'meta.json')))
-    with multiprocessing.Pool(16) as pool:
-        res = pool.map(work, names)
+    with multiprocessing.Pool(int(os.environ.get('JOBS', '8')), maxtasksperchild=4) as pool:
+        res = pool.map(work, names, chunksize=1)
     own = 0
     for name, caught in res:
         p = os.path.join(VERIF, 'seeded', name, 'meta.json')
